@@ -361,6 +361,26 @@ pub fn gen_tree(r: &mut Rng, leaves: usize, leaf: &mut dyn FnMut(&mut Rng) -> Ex
     }
 }
 
+/// Constructor route only: the same tree with explicit grouping nodes (`Operator::Precedence`, which the
+/// parser never produces but the public constructors allow) wrapped around random sub-trees.
+pub fn with_groups(e: &Expression, r: &mut Rng, one_in: u64) -> Expression {
+    let inner = match e {
+        Expression::Operator(op) => match op.as_ref() {
+            Operator::Not(x) => not(with_groups(x, r, one_in)),
+            Operator::And(a, b) => and(with_groups(a, r, one_in), with_groups(b, r, one_in)),
+            Operator::Or(a, b) => or(with_groups(a, r, one_in), with_groups(b, r, one_in)),
+            Operator::List(a, b) => list(with_groups(a, r, one_in), with_groups(b, r, one_in)),
+            Operator::Precedence(x) => prec(with_groups(x, r, one_in)),
+        },
+        other => other.clone(),
+    };
+    if r.chance(1, one_in) {
+        prec(inner)
+    } else {
+        inner
+    }
+}
+
 // ---------------------------------------------------------------------------------------------
 // Text renderer (spec side)
 
